@@ -42,24 +42,24 @@ type Node struct {
 	Honest    bool
 	Initiator bool // true: the node dials the service (inbound for the service)
 
-	mu          sync.Mutex
-	conn        net.Conn
-	connected   bool
-	closedByMe  bool
-	muted       bool
-	pending     []*wire.MsgGetHeaders // unanswered getheaders, oldest first
-	gotHeaders  []int                 // sizes of headers messages the service sent us
-	sendHeaders bool
-	gotVerack   bool
-	log         []string
-	bad         func(hs []*wire.BlockHeader) []*wire.BlockHeader // misbehaviour applied to the next reply
-	out         chan wire.Message
+	mu              sync.Mutex
+	conn            net.Conn
+	connected       bool
+	closedByMe      bool
+	muted           bool
+	pending         []*wire.MsgGetHeaders // unanswered getheaders, oldest first
+	gotHeaders      []int                 // sizes of headers messages the service sent us
+	sendHeaders     bool
+	gotVerack       bool
+	log             []string
+	bad             func(hs []*wire.BlockHeader) []*wire.BlockHeader // misbehaviour applied to the next reply
+	out             chan wire.Message
 	lastReply       []*wire.BlockHeader
 	lastHeadersMsg  []*wire.BlockHeader // last headers message the service sent us
 	headersMsgs     int
 	allRequests     []*wire.MsgGetHeaders
 	checkedRequests int
-	getHeadersSeen int
+	getHeadersSeen  int
 }
 
 func (n *Node) logf(f string, a ...any) {
